@@ -3,9 +3,9 @@ package main
 // C04 — processes sharing a counter file never corrupt it, even when killed (publication discipline).
 
 import (
-	"os"
 	"fmt"
 	"go/token"
+	"os"
 	"strings"
 
 	"golang.org/x/tools/go/ssa"
